@@ -274,7 +274,7 @@ Proof.
   - cbn [run run_ok] in *. destruct (do_step cfg st s) as [st1 o] eqn:Estep.
     destruct (run cfg st1 r) as [st2 os] eqn:Erun. inversion Hrun; subst. clear Hrun.
     destruct Hok as (Hswf & Hout & Hsz1 & Hok').
-    destruct s as [cs ord|]; cbn [do_step step_wf no_reopen] in *.
+    destruct s as [cs ord| |tn tz]; cbn [do_step step_wf no_reopen] in *; [| |discriminate].
     + assert (HI1: Inv wc (cfg_ext cfg) st1).
       { destruct Hout as [Hout|(Ha & e & ->)].
         - eapply inv_add_ok; eauto.
@@ -311,7 +311,7 @@ Proof.
   - cbn [run run_ok] in *. destruct (do_step cfg st s) as [st1 o] eqn:Estep.
     destruct (run cfg st1 r) as [st2 os] eqn:Erun. inversion Hrun; subst. clear Hrun.
     destruct Hok as (Hswf & Hout & Hsz1 & Hok').
-    destruct s as [cs ord|]; cbn [do_step step_wf accepted] in *.
+    destruct s as [cs ord| |tn tz]; cbn [do_step step_wf accepted] in *; [| |discriminate].
     + destruct Hout as [Hout|(Ha & e & ->)].
       * rewrite Hout.
         destruct (add_ok_tables cfg st cs ord st1 o Estep Hout) as (m' & Eap & Tm').
@@ -393,4 +393,47 @@ Proof.
   destruct (clone_tables m' Hm) as (mc & Hc & Tc & _). rewrite Hc.
   exists mc. split; auto. rewrite Nat2N.id, firstn_app, Nat.sub_diag, firstn_all. cbn [firstn].
   now rewrite app_nil_r.
+Qed.
+
+(* crash mid-append, open again, keep working: after a torn tail was dropped by the re-open
+   (C09_manifest_truncated_partial gives the hypothesis on replay), every later accepted change
+   set is appended right after the whole records: the file replays to the whole records' change
+   sets followed by the accepted ones, and agrees with the live table map *)
+Theorem append_after_torn_tail cfg css m' p man0 steps st outs :
+  cfg_ext cfg < 65536 -> wf_sets css ->
+  apply_sets empty_manifest css = (m', None) ->
+  N.of_nat (length (mf_image (cfg_ext cfg) css)) < two32 ->
+  replay (cfg_ext cfg) (mf_image (cfg_ext cfg) css ++ p)
+    = ROk m' (N.of_nat (length (mf_image (cfg_ext cfg) css))) ->
+  let st0 := fst (reopen cfg (mkMF (mf_image (cfg_ext cfg) css ++ p) man0)) in
+  run_ok false cfg st0 steps ->
+  run cfg st0 steps = (st, outs) ->
+  mf_bytes st0 = mf_image (cfg_ext cfg) css
+  /\ exists mr ms,
+       replay (cfg_ext cfg) (mf_bytes st) = ROk mr (N.of_nat (length (mf_bytes st)))
+       /\ same_tables mr (mf_man st)
+       /\ apply_sets empty_manifest (css ++ accepted steps outs) = (ms, None)
+       /\ same_tables mr ms.
+Proof.
+  intros Hext Hwf Hap Hsz Hrp st0 Hok Hrun.
+  destruct (reopen_torn cfg css m' p man0 Hext Hwf Hap Hrp) as (live & Hre & Tl).
+  assert (Hst0: st0 = mkMF (mf_image (cfg_ext cfg) css) live) by (unfold st0; now rewrite Hre).
+  assert (Hm': man_wf m') by (apply (apply_sets_wf css empty_manifest m' None Hwf empty_man_wf Hap)).
+  assert (Hlive: man_wf live).
+  { unfold reopen in Hre. cbn [mf_bytes] in Hre. rewrite Hrp in Hre.
+    destruct (clone_tables m' Hm') as (mc & Hc & Tc & Wc). rewrite Hc in Hre.
+    inversion Hre; subst. exact Wc. }
+  assert (HI: Inv false (cfg_ext cfg) st0).
+  { rewrite Hst0. split; [exact Hlive|]. exists css, m'. cbn [mf_bytes mf_man].
+    split; [reflexivity|]. split; [exact Hwf|]. split; [exact Hap|]. split; [now rewrite Tl|].
+    discriminate. }
+  assert (Hsz0: N.of_nat (length (mf_bytes st0)) < two32) by (rewrite Hst0; exact Hsz).
+  split; [rewrite Hst0; reflexivity|].
+  destruct (run_inv cfg Hext steps false false st0 st outs) as (HI' & Hsz'); auto.
+  { discriminate. }
+  destruct (inv_replay _ _ st Hext HI' Hsz') as (mr & A & B & _ & _).
+  destruct (run_spec cfg Hext steps false false st0 st outs css m') as (ms & S1 & S2); auto.
+  { discriminate. } { rewrite Hst0. cbn [mf_man]. now rewrite Tl. }
+  exists mr, ms. split; [exact A|]. split; [exact B|]. split; [exact S1|].
+  unfold same_tables in *. now rewrite B, S2.
 Qed.
